@@ -296,6 +296,23 @@ def rule_builtin_set(prog):
             % (sorted(map(str, listed)), sorted(map(str, keys))))
     # every builtin entry has range 0..0 and its key equals its name
     out.add("table::initialization", "builtin count", len(keys) >= 11, c.loc(ini[0]["sp"]), "%d entries" % len(keys))
+    # predefined procedures have no source: their entries carry the dummy range 0..0 and `is_default()` - the only guard in front
+    # of `to_text_range` - recognises global entries only (ENTRY-KIND).  So no *local* entry may exist for a builtin.
+    n_lit = 0
+    bad = None
+    for bb in [x for x in c.bodies if x["p"].startswith(ini[0]["p"])]:
+        for st in hir.nodes(bb["body"], "Struct"):
+            if (st.get("adt") or "").endswith("table::ProcedureEntry"):
+                n_lit += 1
+                f = {x["name"]: x["e"] for x in st["fields"]}
+                lt = hir.strip(f.get("local_table", {}))
+                empty = lt.get("k") == "Call" and last(hir.callee(lt) or "") in ("default", "new") and not lt["args"]
+                if not empty:
+                    bad = st
+    if n_lit:
+        out.add("table::initialization", "predefined procedures have an empty local table", bad is None, c.loc((bad or ini[0])["sp"]),
+                "a builtin's local table holds entries whose ranges are the dummy 0..0; `Entry::is_default()` is false for locals, "
+                "so go-to on a same-named parameter of a redeclared builtin slices `tokens[0..0]` with them and panics")
     return out
 
 
@@ -363,6 +380,37 @@ def rule_relex_window(prog):
     out.add("lexer::update", "window end = old length minus reused tail", tail in end_l and len(end_l) == 2, c.loc(tc[0]["sp"]), "end from len of %s, tail is %s" % (end_l, tail))
     out.add("lexer::update", "insertion length = number of freshly lexed tokens", ins_l == {new}, c.loc(tc[0]["sp"]), "from len of %s, new is %s" % (ins_l, new))
     out.add("lexer::update", "result = head ++ new ++ tail ++ [eof]", len(order) == 4 and "?" not in order[:3], c.loc(conc[0]["sp"]), "%s" % order)
+    # batch lexer and incremental lexer skip the same thing between tokens, and the batch lexer sees the text as given
+    lx = prog.body("spl_frontend::lexer::lex")
+    if lx is None:
+        out.missing("lexer::lex")
+        return out
+
+    def skippers(body):
+        res = set()
+        for call in hir.nodes(body["body"], "Call"):
+            if (hir.callee(call) or "").endswith("nom::sequence::preceded") and len(call["args"]) == 2:
+                d0, d1 = hir.path_def(call["args"][0]), hir.path_def(call["args"][1])
+                if d1 and (d1.get("rp") or d1["p"]).endswith("::lex"):
+                    res.add((d0.get("rp") or d0["p"]) if d0 else "?")
+        return res
+
+    s_lex, s_upd = skippers(lx), skippers(b)
+    ok = (s_lex == s_upd and len(s_lex) == 1) if (s_lex and s_upd and "?" not in s_lex | s_upd) else None
+    out.add("lexer::lex/update", "batch and incremental lexer skip the same separator class between tokens", ok, c.loc(b["sp"]),
+            "lex skips %s, update skips %s: text that only one of the two treats as a separator yields different token streams"
+            % (sorted(s_lex), sorted(s_upd)), ("lexinput",))
+    spans = [call for call in hir.nodes(lx["body"], "Call") if (hir.callee(call) or "").startswith("nom_locate::") and last(hir.callee(call) or "") == "new"]
+    pid = None
+    for pp in lx["params"]:
+        bs = list(hir.pat_bindings(pp))
+        if len(bs) == 1:
+            pid = bs[0]["id"]
+    if spans:
+        a0 = hir.path_local(hir.strip_ref(spans[0]["args"][0])) if spans[0]["args"] else None
+        out.add("lexer::lex", "token ranges refer to the text that was handed in", bool(a0) and a0["id"] == pid, c.loc(spans[0]["sp"]),
+                "the Span the tokens take their ranges from is not built over the `src` parameter itself: a trimmed or re-sliced input "
+                "shifts every range against the text the caller (AnalyzedSource.text, lexer::update, the features) keeps", ("lexinput",))
     return out
 
 
@@ -443,11 +491,22 @@ def rule_diag_flag(prog):
         out.missing("LanguageServer::{initialize, run}")
         return out
     ok = False
+    detail = ""
     for a in hir.nodes(ini[0]["body"], "Assign"):
         if (place(a["l"]) or "").endswith(".client_details.diagnostics"):
             reads = [f["name"] for f in hir.nodes(a["r"], "Field")]
             ok = "publish_diagnostics" in reads and any(m["m"] == "is_some" for m in hir.nodes(a["r"], "MethodCall"))
-    out.add("server::LanguageServer::initialize", "diagnostics support = client announced textDocument.publishDiagnostics", ok, c.loc(ini[0]["sp"]), "")
+            # the Option that is tested is the capability itself, not an Option wrapped around it
+            for m in hir.nodes(a["r"], "MethodCall"):
+                if m["m"] in ("is_some", "is_none"):
+                    t = c.tstr(m["recv"]["t"]).replace(" ", "")
+                    for ad in m["recv"].get("adj") or []:
+                        t = c.tstr(ad["to"]).replace(" ", "")
+                    inner = t[t.find("Option<") + len("Option<"):] if "Option<" in t else ""
+                    if not inner.startswith("lsp_types::PublishDiagnosticsClientCapabilities"):
+                        ok = False
+                        detail = "the tested value has type %s: `Some(None)` (a client that sent `textDocument` without `publishDiagnostics`) counts as support" % t
+    out.add("server::LanguageServer::initialize", "diagnostics support = client announced textDocument.publishDiagnostics", ok, c.loc(ini[0]["sp"]), detail)
     ok = False
     for call in hir.nodes(run[0]["body"], "Call"):
         bf = roles.broker_fn(prog)
@@ -627,6 +686,10 @@ def rule_no_merge(prog):
                 rt = c.tstr(n["recv"]["t"]) + "".join(c.tstr(a["to"]) for a in n["recv"].get("adj") or [])
                 if "CompletionItem" in rt:
                     bad, why = n, "`%s` on a list of completion items" % n["m"]
+            if n.get("k") == "MethodCall" and n["m"] in ("filter", "take_while", "skip_while", "skip", "take", "step_by", "filter_map", "map_while"):
+                rt = c.tstr(n["recv"]["t"])
+                if "CompletionItem" in rt:
+                    bad, why = n, "`%s` over already built completion items prunes proposals" % n["m"]
         out.add(b["d"], "completion items are neither merged by key nor removed after they were collected", bad is None,
                 c.loc((bad or b)["sp"]), why)
     return out
@@ -727,4 +790,150 @@ def rule_cursor_cmp(prog):
                     "next parameter is marked active" % form)
     if n == 0:
         out.missing("comparisons of a token bound with the cursor offset in lsp4spl::features")
+    return out
+
+
+# ------------------------------------------------------------------ SLICE-FIRST
+
+def rule_slice_first(prog):
+    """Every token parser skips the comments in front of its token, and `info(..)` counts them: the token slice of a node
+    (AstInfo::slice / tokens[node range]) may start with comments.  A handler that takes the *first* token of such a slice
+    as the node's own first token (first(), split_first(), [0]) reads a comment instead - unless the slice went through a
+    function that skips comments first."""
+    out = Out("SLICE-FIRST")
+    c = prog.lsp
+    bodies = [b for b in c.bodies if b["p"].startswith("lsp4spl::features") and "/tests" not in c.file_of(b["sp"]) and b["k"] in ("fn", "assoc_fn")]
+    n_slices = 0
+    for b in bodies:
+        defs = {}
+        for l in hir.nodes(b["body"], "Let"):
+            if l["pat"].get("k") == "Binding" and l.get("init") is not None:
+                defs[l["pat"]["id"]] = l["init"]
+
+        def is_node_slice(e, depth=0):
+            """e is (a borrow of) AstInfo::slice(..) / tokens[<node>.to_range()..] directly, not a value computed from it"""
+            e = hir.strip_ref(e)
+            if e.get("k") == "MethodCall" and e["m"] == "slice" and "AstInfo" in (hir.callee_display(e) or hir.callee(e) or ""):
+                return True
+            if e.get("k") == "Index" and "Token" in c.tstr(e["base"]["t"]):
+                idx = hir.strip(e["idx"])
+                if any(m["m"] == "to_range" for m in hir.nodes(idx, "MethodCall")):
+                    return True
+            pl = hir.path_local(e)
+            if pl and pl["id"] in defs and depth < 4:
+                return is_node_slice(defs[pl["id"]], depth + 1)
+            return False
+
+        bad = None
+        for n in hir.nodes(b["body"]):
+            if n.get("k") == "MethodCall" and n["m"] in ("first", "split_first", "first_mut") and "Token" in c.tstr(n["recv"]["t"]) + "".join(
+                    c.tstr(a["to"]) for a in n["recv"].get("adj") or []):
+                if is_node_slice(n["recv"]):
+                    bad = n
+            if n.get("k") == "Index" and "Token" in c.tstr(n["base"]["t"]) and hir.lit_value(hir.strip(n["idx"])) in ("0", 0):
+                if is_node_slice(n["base"]):
+                    bad = n
+            if n.get("k") == "MethodCall" and n["m"] == "slice" and "AstInfo" in (hir.callee_display(n) or hir.callee(n) or ""):
+                n_slices += 1
+        if any(True for x in hir.nodes(b["body"]) if (x.get("k") == "MethodCall" and x["m"] in ("first", "split_first")) or x.get("k") == "Index") or bad:
+            out.add(b["d"], "the first token of a node's slice is not taken for the node's own first token", bad is None,
+                    c.loc((bad or b)["sp"]), "a node's token range starts with the comments written in front of it (every token parser "
+                    "skips them inside `info(..)`): `first()` of the slice is such a comment whenever there is one")
+    if n_slices == 0:
+        out.missing("AstInfo::slice uses in lsp4spl::features")
+    return out
+
+
+# ------------------------------------------------------------------ DOC-FLOW
+
+def rule_doc_flow(prog):
+    """The documentation of a table entry is the whole doc-comment block of its declaration: the function that turns the
+    parser's comment lines into `Option<String>` concatenates all of them and answers None only when there is nothing; it
+    never selects, skips or quantifies over individual lines."""
+    out = Out("DOC-FLOW")
+    c = prog.front
+    fns = []
+    for b in c.bodies:
+        if b["k"] != "fn" or "sig_in" not in b or not b["p"].startswith("spl_frontend::table::") or "/tests" in c.file_of(b["sp"]):
+            continue
+        ins = [c.tstr(t).replace(" ", "") for t in b["sig_in"]]
+        o = c.tstr(b["sig_out"]).replace(" ", "")
+        if len(ins) == 1 and ins[0] in ("&[std::string::String]", "&std::vec::Vec<std::string::String>") and o == "std::option::Option<std::string::String>":
+            fns.append(b)
+    if not fns:
+        out.missing("fn(&[String]) -> Option<String> in spl_frontend::table (documentation builder)")
+        return out
+    selecting = ("any", "all", "find", "position", "filter", "filter_map", "skip", "take", "skip_while", "take_while", "first", "last",
+                 "nth", "get", "split_first", "split_last", "contains", "starts_with", "ends_with", "dedup", "retain", "rev")
+    for b in fns:
+        pid = None
+        for pp in b["params"]:
+            bs = list(hir.pat_bindings(pp))
+            pid = bs[0]["id"] if len(bs) == 1 else None
+
+        def from_param(e, depth=0):
+            e = hir.strip_ref(e)
+            pl = hir.path_local(e)
+            if pl:
+                return pl["id"] == pid
+            if e.get("k") == "MethodCall" and e["m"] in ("iter", "into_iter", "as_slice", "as_ref", "to_vec", "clone", "map", "cloned", "copied") and depth < 6:
+                return from_param(e["recv"], depth + 1)
+            return False
+
+        bad = None
+        joined = False
+        for m in hir.nodes(b["body"], "MethodCall"):
+            if from_param(m["recv"]):
+                if m["m"] in selecting:
+                    bad = m
+                if m["m"] in ("concat", "join", "collect"):
+                    joined = True
+            if m["m"] in ("concat", "join") and from_param(m["recv"]):
+                joined = True
+        for ix in hir.nodes(b["body"], "Index"):
+            if from_param(ix["base"]):
+                bad = ix
+        out.add(b["d"], "the documentation is the concatenation of all doc-comment lines", joined and bad is None,
+                c.loc((bad or b)["sp"]), ("`%s` on the comment lines: the documentation shown by hover / signature help / completion "
+                                          "depends on individual lines (a blank `//` line, the first line, ...) instead of being the whole block"
+                                          % (bad.get("m") or "index")) if bad else "no concat/join of the lines found")
+    return out
+
+
+# ------------------------------------------------------------------ BSEARCH-MONO
+
+def rule_bsearch_mono(prog):
+    """A binary search over tokens or nodes (`partition_point`, `binary_search_by(_key)`) is only meaningful for a predicate
+    that is monotone along the slice.  Tokens and declarations are ordered by position, so a predicate that compares a range
+    bound / offset with a position is monotone; a predicate on the token *kind* (comments also occur in the middle of a slice)
+    or on names is not."""
+    out = Out("BSEARCH-MONO")
+    n = 0
+    for c in prog.crates.values():
+        for b in c.bodies:
+            if "/tests" in c.file_of(b["sp"]) or b["k"] == "closure":
+                continue
+            for m in hir.nodes(b["body"], "MethodCall"):
+                if m["m"] not in ("partition_point", "binary_search_by", "binary_search_by_key"):
+                    continue
+                rt = c.tstr(m["recv"]["t"]) + "".join(c.tstr(a["to"]) for a in m["recv"].get("adj") or [])
+                if not ("tokens::Token" in rt or "ast::" in rt):
+                    continue
+                n += 1
+                clo = hir.strip(m["args"][-1]) if m["args"] else {}
+                positional = False
+                kind_test = False
+                for x in hir.nodes(clo):
+                    if x.get("k") == "Field" and x["name"] in ("start", "end", "offset"):
+                        positional = True
+                    if x.get("k") == "Field" and x["name"] in ("token_type", "value", "name"):
+                        kind_test = True
+                    if x.get("k") == "Match" and any(v.startswith("spl_frontend::tokens::TokenType::") for a in x["arms"] for v in hir.pat_variants_all(a["pat"])):
+                        kind_test = True
+                out.add(b["d"], "binary search over tokens/nodes uses a predicate that is monotone in position", positional and not kind_test,
+                        c.loc(m["sp"]), "`%s` with a predicate on the token kind: the slice is ordered by position, not by kind, so the search "
+                        "may stop at any token of that kind in the middle (e.g. a comment inside a procedure body)" % m["m"])
+    if n == 0:
+        # nothing to check today (all searches are linear scans): the rule holds vacuously and says so
+        out.add("(whole program)", "no binary search over tokens/nodes", True, "", "0 sites")
     return out
